@@ -114,7 +114,10 @@ def run_case(I, errs, call, args, is_mutator):
     out = None
     try:
         try:
-            I.interpret(src, "-")
+            res = I.interpret(src, "-")
+            # representation invariant of the number classes (C13: later operations rely on it)
+            if (res.isDecimal() and type(res.value) is not float) or (res.isInt() and type(res.value) is not int):
+                out = ("C13", f"{res.type()} result holding a host {type(res.value).__name__}: {res}")
         finally:
             signal.setitimer(signal.ITIMER_REAL, 0)
     except errs.CklRuntimeError as e:
